@@ -133,7 +133,9 @@ impl Bmi2BitOps {
     /// for 5-10x select speedup on BMI2-capable CPUs.
     #[cfg(target_arch = "x86_64")]
     pub fn select1_ultra_fast(word: u64, rank: usize) -> Option<usize> {
-        if rank == 0 || word == 0 {
+        // rank is 1-based; a rank above the number of set bits has no answer
+        // (and `1u64 << (rank - 1)` below must not be asked to shift by 64 or more)
+        if rank == 0 || rank > word.count_ones() as usize {
             return None;
         }
         
